@@ -299,17 +299,15 @@ func (p *cparser) primary() *CExpr {
 			// ghost call of another function's contract: @Name(args) or @pkg.Recv.Name(args)
 			name := ""
 			for {
+				if p.isOp("*") {
+					name += p.next().s
+				}
 				id := p.next()
 				if id.k != "id" {
 					panic(fmt.Sprintf("expected identifier after @ at %d in %q", id.pos, p.src))
 				}
 				name += id.s
-				if p.isOp(".") {
-					p.next()
-					name += "."
-					continue
-				}
-				if p.isOp("*") || p.isOp("/") {
+				if p.isOp(".") || p.isOp("/") {
 					name += p.next().s
 					continue
 				}
